@@ -78,7 +78,7 @@ def run(tier):
     for i, f in enumerate(files):
         # sizes: as generated; and repeated so the file straddles the 4 KiB inference sample
         variants = [(1, {}), (1, {"csv_read_buf_size": 7})]
-        if i % 4 == 0:
+        if i % (10 if tier == "quick" else 3) == 0:
             rowbytes = max(1, len(render(dict(f, header=False, trail=True))))
             variants.append((4200 // rowbytes + 3, {"csv_read_buf_size": 64}))
         for vi, (rep_n, knobs) in enumerate(variants):
